@@ -99,6 +99,8 @@ inductive Ev where
   | resume (i : Nat)
   | acquire (k : Nat)
   | release (k : Nat)
+  | acquireFails (k : Nat)  -- `acquire()` raises from inside its try block (RecursionError of the priority
+                            -- recursion on a wait-for cycle): the `finally` clause has undone the queueing
   | badRelease (k : Nat)   -- `release()` by a task that does not hold the lock: refused, no change
   | sleep
   | wait (e : Nat)
@@ -219,6 +221,9 @@ def Ev.enabled (s : State) : Ev → Bool
   | .release k => match s.cur with
       | some i => (s.locks k).owner == some i
       | none => false
+  | .acquireFails k => match s.cur with
+      | some i => (s.locks k).owner != some i
+      | none => false
   | .badRelease k => match s.cur with
       | some i => (s.locks k).owner != some i
       | none => false
@@ -325,6 +330,7 @@ def State.apply (s : State) : Ev → State
   | .resume i => s.doResume i
   | .acquire k => match s.cur with | some i => s.doAcquire i k | none => s
   | .release k => match s.cur with | some i => s.doRelease i k | none => s
+  | .acquireFails _ => s   -- entry added and removed again, `_waiting_on` set and cleared: no net change
   | .badRelease _ => s      -- priority.py:206-211: RuntimeError / AssertionError before any change
   | .sleep => match s.cur with
       | some i => { s.enqueue i (.ready false) with cur := none }
